@@ -173,13 +173,13 @@ Proof.
 Qed.
 
 Lemma get_entries_step le st pre post f size :
-  wf_arange_set st = true -> zlen pre mod as_tuple_size st = 0 -> zlen pre < size ->
+  wf_arange_set st = true -> zlen pre < size ->
   get_entries_loop (S f) le false (pre ++ encode_arange_set le st ++ post) size (zlen pre) =
   (do more <- get_entries_loop f le false (pre ++ encode_arange_set le st ++ post) size
                 (zlen pre + zlen (encode_arange_set le st));
    Ok (set_entries st ++ more)).
 Proof.
-  intros Hwf Hal Hsz.
+  intros Hwf Hsz.
   destruct (wf_arange_set_facts st Hwf) as (Ha & Hv & Hio & Hpad & Hts & Hul).
   pose proof (as_n_of st Ha) as Hn.
   rewrite zlen_encode_arange_set by exact Ha.
@@ -216,6 +216,121 @@ Proof.
   assert (Hgs : get_addr_size_struct (as_addr_size st) = Ok (as_n st)).
   { unfold get_addr_size_struct, as_n. destruct Ha as [-> | ->]; reflexivity. }
   rewrite Hgs. cbn [bind]. rewrite Z.eqb_refl.
+  (* stream.tell() - offset = 12, and the first tuple is at offset + 16 wherever the set starts *)
+  rewrite Hlen12.
+  replace (zlen pre + - (- (zlen pre + 12 - zlen pre) / (as_addr_size st * 2)) * (as_addr_size st * 2))
+    with (zlen pre + 16).
+  2:{ replace (zlen pre + 12 - zlen pre) with 12 by lia. destruct Ha as [Ha|Ha]; rewrite Ha; reflexivity. }
+  rewrite Hs2.
+  pose proof (read_tuples_valid le (as_n st) (as_tuples st) (as_trail st ++ post)) as Hrt.
+  cbv zeta in Hrt. fold TB in Hrt.
+  destruct (uint_decode le (as_n st) (TB ++ encode_tuple le (as_n st) (0, 0) ++ as_trail st ++ post))
+    as [[addr r1]|]; [|specialize (Hrt ltac:(lia) Hts); discriminate].
+  destruct (uint_decode le (as_n st) r1) as [[len r2]|]; [|specialize (Hrt ltac:(lia) Hts); discriminate].
+  rewrite Hrt by (auto; lia). cbn [bind].
+  replace (zlen pre + as_unit_length st + 4) with (zlen pre + (4 + as_unit_length st)) by lia.
+  fold (set_header st). rewrite set_entries_mk. reflexivity.
+Qed.
+
+Lemma get_entries_loop_valid le : forall sets pre fuel,
+  forallb wf_arange_set sets = true -> (length sets < fuel)%nat ->
+  get_entries_loop fuel le false (pre ++ encode_aranges le sets)
+    (zlen pre + zlen (encode_aranges le sets)) (zlen pre) = Ok (aranges_entries sets).
+Proof.
+  induction sets as [|st r IH]; intros pre fuel Hwf Hf.
+  - destruct fuel as [|f]; [cbn in Hf; lia|]. cbn [get_entries_loop].
+    unfold encode_aranges. cbn [map concat]. rewrite zlen_nil, Z.add_0_r, Z.ltb_irrefl. reflexivity.
+  - destruct fuel as [|f]; [cbn in Hf; lia|]. cbn [length] in Hf.
+    cbn [forallb] in Hwf. apply andb_prop in Hwf. destruct Hwf as [Hst Hr].
+    destruct (wf_arange_set_facts st Hst) as (Ha & _ & _ & _ & _ & Hul).
+    unfold encode_aranges. cbn [map concat]. fold (encode_aranges le r).
+    rewrite get_entries_step; auto.
+    2:{ rewrite zlen_app, zlen_encode_arange_set by exact Ha. pose proof (zlen_nonneg (encode_aranges le r)). lia. }
+    replace (pre ++ encode_arange_set le st ++ encode_aranges le r)
+      with ((pre ++ encode_arange_set le st) ++ encode_aranges le r) by (rewrite <- app_assoc; reflexivity).
+    replace (zlen pre + zlen (encode_arange_set le st ++ encode_aranges le r))
+      with (zlen (pre ++ encode_arange_set le st) + zlen (encode_aranges le r))
+      by (rewrite !zlen_app; lia).
+    replace (zlen pre + zlen (encode_arange_set le st)) with (zlen (pre ++ encode_arange_set le st))
+      by (rewrite zlen_app; reflexivity).
+    rewrite IH; [reflexivity | exact Hr | lia].
+Qed.
+
+Lemma encode_aranges_length_ge le : forall sets,
+  forallb wf_arange_set sets = true -> zlen sets <= zlen (encode_aranges le sets).
+Proof.
+  induction sets as [|st r IH]; intros Hwf; [unfold encode_aranges; cbn; lia|].
+  cbn [forallb] in Hwf. apply andb_prop in Hwf. destruct Hwf as [Hst Hr].
+  destruct (wf_arange_set_facts st Hst) as (Ha & _ & _ & _ & _ & Hul).
+  unfold encode_aranges. cbn [map concat]. fold (encode_aranges le r).
+  rewrite zlen_app, zlen_cons, zlen_encode_arange_set by exact Ha.
+  specialize (IH Hr). lia.
+Qed.
+
+(* every tuple of every set, with its set header, in encoded order *)
+Theorem aranges_entries_exact le sets : wf_aranges sets = true ->
+  get_entries le false (encode_aranges le sets) (zlen (encode_aranges le sets)) =
+  Ok (aranges_entries sets).
+Proof.
+  intros Hwf. unfold get_entries.
+  pose proof (get_entries_loop_valid le sets [] (S (Z.to_nat (zlen (encode_aranges le sets))))) as H.
+  cbn [app] in H. rewrite zlen_nil, Z.add_0_l in H. apply H; [exact Hwf|].
+  pose proof (encode_aranges_length_ge le sets Hwf) as Hl. unfold zlen in *. lia.
+Qed.
+
+Theorem aranges_init_exact le sets : wf_aranges sets = true ->
+  aranges_init le (encode_aranges le sets) (zlen (encode_aranges le sets)) =
+  Ok (mk_aranges (sorted_by ae_begin (aranges_entries sets))
+                 (map ae_begin (sorted_by ae_begin (aranges_entries sets)))).
+Proof.
+  intros Hwf. unfold aranges_init. rewrite aranges_entries_exact by exact Hwf. reflexivity.
+Qed.
+
+(* ------------------------------------------------------------------ the code before fix efe8bbe *)
+Lemma get_entries_step_unfixed le st pre post f size :
+  wf_arange_set st = true -> zlen pre mod as_tuple_size st = 0 -> zlen pre < size ->
+  get_entries_loop_unfixed (S f) le false (pre ++ encode_arange_set le st ++ post) size (zlen pre) =
+  (do more <- get_entries_loop_unfixed f le false (pre ++ encode_arange_set le st ++ post) size
+                (zlen pre + zlen (encode_arange_set le st));
+   Ok (set_entries st ++ more)).
+Proof.
+  intros Hwf Hal Hsz.
+  destruct (wf_arange_set_facts st Hwf) as (Ha & Hv & Hio & Hpad & Hts & Hul).
+  pose proof (as_n_of st Ha) as Hn.
+  rewrite zlen_encode_arange_set by exact Ha.
+  set (TB := concat (map (encode_tuple le (as_n st)) (as_tuples st))).
+  set (after := as_pad st ++ TB ++ encode_tuple le (as_n st) (0, 0) ++ as_trail st ++ post).
+  set (H12 := fun rest => int_encode le 4 (as_unit_length st) ++ int_encode le 2 (as_version st) ++
+           int_encode le 4 (as_info_offset st) ++ int_encode le 1 (as_addr_size st) ++
+           int_encode le 1 0 ++ rest).
+  assert (Henc : encode_arange_set le st ++ post = H12 after).
+  { unfold encode_arange_set. rewrite as_body_length by exact Ha.
+    unfold as_body, H12, after, TB. rewrite <- !app_assoc. reflexivity. }
+  assert (Hs1 : skipn (Z.to_nat (zlen pre)) (pre ++ encode_arange_set le st ++ post) = H12 after).
+  { rewrite skipn_zlen_app by reflexivity. exact Henc. }
+  assert (Hs2 : skipn (Z.to_nat (zlen pre + 16)) (pre ++ encode_arange_set le st ++ post) =
+                TB ++ encode_tuple le (as_n st) (0, 0) ++ as_trail st ++ post).
+  { rewrite Henc. unfold H12, after.
+    replace (pre ++ int_encode le 4 (as_unit_length st) ++ int_encode le 2 (as_version st) ++
+             int_encode le 4 (as_info_offset st) ++ int_encode le 1 (as_addr_size st) ++
+             int_encode le 1 0 ++ as_pad st ++ TB ++ encode_tuple le (as_n st) (0, 0) ++ as_trail st ++ post)
+      with ((pre ++ int_encode le 4 (as_unit_length st) ++ int_encode le 2 (as_version st) ++
+             int_encode le 4 (as_info_offset st) ++ int_encode le 1 (as_addr_size st) ++
+             int_encode le 1 0 ++ as_pad st) ++
+            TB ++ encode_tuple le (as_n st) (0, 0) ++ as_trail st ++ post)
+      by (rewrite <- !app_assoc; reflexivity).
+    apply skipn_zlen_app. rewrite !zlen_app, !zlen_int_encode, Hpad. lia. }
+  assert (Hlen12 : zlen (H12 after) - zlen after = 12).
+  { unfold H12. rewrite !zlen_app, !zlen_int_encode. lia. }
+  cbn [get_entries_loop_unfixed].
+  destruct (Z.ltb_spec (zlen pre) size) as [_|]; [|lia].
+  rewrite Hs1. unfold H12 at 1.
+  rewrite aranges_header_decode_valid; auto.
+  2:{ unfold u_ok. destruct Ha as [-> | ->]; reflexivity. }
+  cbn [ah_address_size ah_segment_size ah_unit_length bind].
+  assert (Hgs : get_addr_size_struct (as_addr_size st) = Ok (as_n st)).
+  { unfold get_addr_size_struct, as_n. destruct Ha as [-> | ->]; reflexivity. }
+  rewrite Hgs. cbn [bind]. rewrite Z.eqb_refl.
   (* stream.tell() = offset + 12, and the first tuple is at offset + 16 *)
   rewrite Hlen12.
   replace (((zlen pre + 12 + as_addr_size st * 2 - 1) / (as_addr_size st * 2)) * (as_addr_size st * 2))
@@ -232,20 +347,22 @@ Proof.
   fold (set_header st). rewrite set_entries_mk. reflexivity.
 Qed.
 
-Lemma get_entries_loop_valid le : forall sets pre fuel,
-  wf_aranges_from (zlen pre) sets = true -> (length sets < fuel)%nat ->
-  get_entries_loop fuel le false (pre ++ encode_aranges le sets)
+Lemma get_entries_loop_unfixed_valid le : forall sets pre fuel,
+  forallb wf_arange_set sets = true -> aranges_aligned_from (zlen pre) sets = true ->
+  (length sets < fuel)%nat ->
+  get_entries_loop_unfixed fuel le false (pre ++ encode_aranges le sets)
     (zlen pre + zlen (encode_aranges le sets)) (zlen pre) = Ok (aranges_entries sets).
 Proof.
-  induction sets as [|st r IH]; intros pre fuel Hwf Hf.
-  - destruct fuel as [|f]; [cbn in Hf; lia|]. cbn [get_entries_loop].
+  induction sets as [|st r IH]; intros pre fuel Hwf Halg Hf.
+  - destruct fuel as [|f]; [cbn in Hf; lia|]. cbn [get_entries_loop_unfixed].
     unfold encode_aranges. cbn [map concat]. rewrite zlen_nil, Z.add_0_r, Z.ltb_irrefl. reflexivity.
   - destruct fuel as [|f]; [cbn in Hf; lia|]. cbn [length] in Hf.
-    cbn [wf_aranges_from] in Hwf. apply andb_prop in Hwf. destruct Hwf as [Hwf Hr].
-    apply andb_prop in Hwf. destruct Hwf as [Hst Hal]. apply Z.eqb_eq in Hal.
+    cbn [forallb] in Hwf. apply andb_prop in Hwf. destruct Hwf as [Hst Hr].
+    cbn [aranges_aligned_from] in Halg. apply andb_prop in Halg. destruct Halg as [Hal Halr].
+    apply Z.eqb_eq in Hal.
     destruct (wf_arange_set_facts st Hst) as (Ha & _ & _ & _ & _ & Hul).
     unfold encode_aranges. cbn [map concat]. fold (encode_aranges le r).
-    rewrite get_entries_step; auto.
+    rewrite get_entries_step_unfixed; auto.
     2:{ rewrite zlen_app, zlen_encode_arange_set by exact Ha. pose proof (zlen_nonneg (encode_aranges le r)). lia. }
     replace (pre ++ encode_arange_set le st ++ encode_aranges le r)
       with ((pre ++ encode_arange_set le st) ++ encode_aranges le r) by (rewrite <- app_assoc; reflexivity).
@@ -254,43 +371,36 @@ Proof.
       by (rewrite !zlen_app; lia).
     replace (zlen pre + zlen (encode_arange_set le st)) with (zlen (pre ++ encode_arange_set le st))
       by (rewrite zlen_app; reflexivity).
-    rewrite IH.
-    + reflexivity.
-    + rewrite zlen_app, zlen_encode_arange_set by exact Ha.
-      replace (zlen pre + (4 + as_unit_length st)) with (zlen pre + 4 + as_unit_length st) by lia.
-      exact Hr.
-    + lia.
+    rewrite IH; [reflexivity | exact Hr | | lia].
+    rewrite zlen_app, zlen_encode_arange_set by exact Ha.
+    replace (zlen pre + (4 + as_unit_length st)) with (zlen pre + 4 + as_unit_length st) by lia.
+    exact Halr.
 Qed.
 
-Lemma encode_aranges_length_ge le : forall sets off,
-  wf_aranges_from off sets = true -> zlen sets <= zlen (encode_aranges le sets).
+(* where every set starts at a multiple of its tuple size (the domain the theorem had before
+   the repair) the old section-relative padding and the repaired code read the same table *)
+Theorem aranges_unfixed_agrees_aligned le sets :
+  wf_aranges sets = true -> aranges_aligned sets = true ->
+  get_entries_unfixed le false (encode_aranges le sets) (zlen (encode_aranges le sets)) =
+  get_entries le false (encode_aranges le sets) (zlen (encode_aranges le sets)).
 Proof.
-  induction sets as [|st r IH]; intros off Hwf; [unfold encode_aranges; cbn; lia|].
-  cbn [wf_aranges_from] in Hwf. apply andb_prop in Hwf. destruct Hwf as [Hwf Hr].
-  apply andb_prop in Hwf. destruct Hwf as [Hst _].
-  destruct (wf_arange_set_facts st Hst) as (Ha & _ & _ & _ & _ & Hul).
-  unfold encode_aranges. cbn [map concat]. fold (encode_aranges le r).
-  rewrite zlen_app, zlen_cons, zlen_encode_arange_set by exact Ha.
-  specialize (IH _ Hr). lia.
+  intros Hwf Hal. rewrite aranges_entries_exact by exact Hwf. unfold get_entries_unfixed.
+  pose proof (get_entries_loop_unfixed_valid le sets [] (S (Z.to_nat (zlen (encode_aranges le sets))))) as H.
+  cbn [app] in H. rewrite zlen_nil, Z.add_0_l in H. apply H; [exact Hwf | exact Hal |].
+  pose proof (encode_aranges_length_ge le sets Hwf) as Hl. unfold zlen in *. lia.
 Qed.
 
-(* every tuple of every set, with its set header, in encoded order *)
-Theorem aranges_entries_exact le sets : wf_aranges sets = true ->
-  get_entries le false (encode_aranges le sets) (zlen (encode_aranges le sets)) =
-  Ok (aranges_entries sets).
+(* the deviation of the code as found: an 8-byte-address set that follows a 24-byte
+   4-byte-address set starts at offset 24, not a multiple of 16; its first tuple is at 24+16 = 40,
+   the old code looked for it at ceil(36/16)*16 = 48, took the terminator for the first pair and
+   ran off the end of the section: ELFParseError, where readelf and llvm-dwarfdump print the range *)
+Theorem aranges_section_padding_refuted :
+  exists sets, wf_aranges sets = true /\ ranges_disjoint (aranges_entries sets) = true /\
+    aranges_entries sets = [mk_arange_entry 0x1000 0x10 0x40 44 2 8 0] /\
+    get_entries_unfixed true false (encode_aranges true sets) (zlen (encode_aranges true sets)) = Err EParse.
 Proof.
-  intros Hwf. unfold get_entries.
-  pose proof (get_entries_loop_valid le sets [] (S (Z.to_nat (zlen (encode_aranges le sets))))) as H.
-  cbn [app] in H. rewrite zlen_nil, Z.add_0_l in H. apply H; [exact Hwf|].
-  pose proof (encode_aranges_length_ge le sets 0 Hwf) as Hl. unfold zlen in *. lia.
-Qed.
-
-Theorem aranges_init_exact le sets : wf_aranges sets = true ->
-  aranges_init le (encode_aranges le sets) (zlen (encode_aranges le sets)) =
-  Ok (mk_aranges (sorted_by ae_begin (aranges_entries sets))
-                 (map ae_begin (sorted_by ae_begin (aranges_entries sets)))).
-Proof.
-  intros Hwf. unfold aranges_init. rewrite aranges_entries_exact by exact Hwf. reflexivity.
+  exists [mk_arange_set 2 0 4 [0; 0; 0; 0] [] []; mk_arange_set 2 0x40 8 [0; 0; 0; 0] [(0x1000, 0x10)] []].
+  vm_compute. repeat split; reflexivity.
 Qed.
 
 (* ------------------------------------------------------------------ lookup *)
